@@ -297,12 +297,90 @@ def isolated_outcomes_inproc(plan):
     return encs, json.loads(json.dumps(outs))
 
 
-def _gs_violation(plan, gs0, where, trace, ctr):
-    now = globalstate.digest()
-    diff = [repr(b)[:200] for a, b in zip(gs0, now) if a != b][:3]
-    v = W.Violation('global-state-changed', where=where, diff=diff, n_before=len(gs0), n_after=len(now))
-    return common.violation_result(v, ['global-state-changed', where, None, None], trace, ctr, None, None,
-                                   {'kind': 'file'}, None)
+# A change of module-level state is not a violation by itself (a memo cache of immutable results is
+# harmless); it is a reason to look.  The probe: a fixed catalogue of codec calls over types that collide
+# in everything a careless cache could be keyed by (same first identifier octet, same tag number under
+# different classes/base types, long tags, same type ids) is evaluated once per process before anything
+# else ran, and again whenever the state digest moved; the outcomes must be the same.
+_CAT = [
+    ({'k': 'INTEGER', 'tags': []}, 5, 'ber'),
+    ({'k': 'INTEGER', 'tags': [['I', 'C', 0]]}, 5, 'ber'),
+    ({'k': 'OCTETSTRING', 'tags': [['I', 'C', 0]]}, '0500', 'ber'),
+    ({'k': 'BOOLEAN', 'tags': [['I', 'C', 0]]}, True, 'der'),
+    ({'k': 'SEQ', 'tags': [], 'fields': [{'n': 'a', 'd': {'k': 'INTEGER', 'tags': [['I', 'C', 0]]}, 'opt': 'R'},
+                                        {'n': 'b', 'd': {'k': 'UTF8', 'tags': [['E', 'C', 1]]}, 'opt': 'O'}]}, {'a': 1, 'b': 'x'}, 'ber-indef'),
+    ({'k': 'SEQ', 'tags': [], 'fields': [{'n': 'a', 'd': {'k': 'OCTETSTRING', 'tags': [['I', 'C', 0]]}, 'opt': 'R'},
+                                        {'n': 'b', 'd': {'k': 'NULL', 'tags': [['E', 'C', 1]]}, 'opt': 'O'}]}, {'a': '01', 'b': ''}, 'cer'),
+    ({'k': 'SET', 'tags': [['I', 'A', 31]], 'fields': [{'n': 'a', 'd': {'k': 'INTEGER', 'tags': [['I', 'P', 1000]]}, 'opt': 'R'}]}, {'a': -1}, 'der'),
+    ({'k': 'SEQOF', 'tags': [['I', 'A', 31]], 'of': {'k': 'OID', 'tags': []}}, [[1, 3, 6]], 'ber'),
+    ({'k': 'CHOICE', 'tags': [], 'alts': [['x', {'k': 'INTEGER', 'tags': [['I', 'C', 0]]}], ['y', {'k': 'BITSTRING', 'tags': [['I', 'C', 1]]}]]}, ['y', '101'], 'ber'),
+    ({'k': 'CHOICE', 'tags': [], 'alts': [['x', {'k': 'BITSTRING', 'tags': [['I', 'C', 0]]}], ['y', {'k': 'INTEGER', 'tags': [['I', 'C', 1]]}]]}, ['y', 7], 'cer'),
+    ({'k': 'OCTETSTRING', 'tags': [['E', 'P', 1000]]}, 'ab' * 5, 'ber-chunk:2'),
+    ({'k': 'REAL', 'tags': []}, 1.5, 'der'),
+]
+_CAT_REF = [None]
+
+
+def _fork_eval(fn):
+    """Evaluate fn() in a forked child and return its JSON-able result."""
+    rfd, wfd = os.pipe()
+    pid = os.fork()
+    if pid == 0:
+        code = 0
+        try:
+            os.close(rfd)
+            data = json.dumps(fn()).encode()
+            with os.fdopen(wfd, 'wb') as f:
+                f.write(data)
+        except BaseException:
+            code = 3
+        finally:
+            os._exit(code)
+    os.close(wfd)
+    with os.fdopen(rfd, 'rb') as f:
+        data = f.read()
+    _, status = os.waitpid(pid, 0)
+    if status != 0:
+        raise RuntimeError('fork_eval child failed: %r' % (status,))
+    return json.loads(data.decode())
+
+
+def _catalogue_reference():
+    """Each catalogue item alone, in its own forked child of the still-clean process."""
+    return [_fork_eval(lambda i=i: _catalogue_outcomes([i])[0]) for i in range(len(_CAT))]
+
+
+def _catalogue_outcomes(only=None):
+    out = []
+    for idx, (desc, pv, codec) in enumerate(_CAT):
+        if only is not None and idx not in only:
+            continue
+        try:
+            sch = U.build_schema(desc)
+            val = U.build_value(sch, desc, pv)
+            enc, dec, opts = U.codec(codec)
+            e = enc.encode(val, **opts)
+            back, rest = dec.decode(e, asn1Spec=sch)
+            objs = list(dec.StreamingDecoder(e + e, asn1Spec=sch))
+            out.append([e.hex(), U.jsonable(U.absval(back)), bytes(rest).hex(), len(objs),
+                        U.jsonable(U.absval(objs[-1])) if objs else None])
+        except Exception as ex:
+            out.append(['err', type(ex).__name__])
+    return out
+
+
+def _gs_moved(plan, gs0, where, trace, ctr):
+    """The state digest moved: harmless unless other calls now behave differently."""
+    ctr['probe.module_state_moved.%s' % where] = 1
+    now = json.loads(json.dumps(_catalogue_outcomes()))
+    if now != _CAT_REF[0]:
+        bad = [i for i, (a, b) in enumerate(zip(now, _CAT_REF[0])) if a != b]
+        diff = [repr(b)[:200] for a, b in zip(gs0, globalstate.digest()) if a != b][:3]
+        v = W.Violation('module-state-changed-and-affects-other-calls', where=where, catalogue_items=bad[:5],
+                        got=json.dumps(now[bad[0]])[:200], want=json.dumps(_CAT_REF[0][bad[0]])[:200], state_diff=diff)
+        return common.violation_result(v, ['module-state-changed-and-affects-other-calls', where, None, None],
+                                       trace, ctr, None, None, {'kind': 'file'}, None)
+    return None
 
 
 def isolated_outcomes(plan):
@@ -377,13 +455,26 @@ def execute(plan):
         return common.skip_result('build:%s' % type(e).__name__)
     if problem:
         return common.skip_result('schema-ill-formed')
+    if _CAT_REF[0] is None:
+        _CAT_REF[0] = _catalogue_reference()
+        # the catalogue run as one history in this process must already agree with the isolated items
+        first = _catalogue_outcomes()
+        if json.loads(json.dumps(first)) != _CAT_REF[0]:
+            bad = [i for i, (a, b) in enumerate(zip(json.loads(json.dumps(first)), _CAT_REF[0])) if a != b]
+            v = W.Violation('module-state-changed-and-affects-other-calls', where='catalogue-history', catalogue_items=bad[:5],
+                            got=json.dumps(first[bad[0]])[:200], want=json.dumps(_CAT_REF[0][bad[0]])[:200])
+            return common.violation_result(v, ['module-state-changed-and-affects-other-calls', 'catalogue-history', None, None],
+                                           trace, ctr, None, None, {'kind': 'file'}, None)
     gs0 = globalstate.digest()
     if plan.get('isolation') == 'fork':
         encs, iso = isolated_outcomes(plan)
     else:
         encs, iso = isolated_outcomes_inproc(plan)
     if globalstate.digest() != gs0:
-        return _gs_violation(plan, gs0, 'reference-calls', trace, ctr)
+        bad = _gs_moved(plan, gs0, 'reference-calls', trace, ctr)
+        if bad:
+            return bad
+        gs0 = globalstate.digest()
     if any(o[0] == 'harness' for o in iso):
         return common.skip_result('isolated-harness:%s' % [o for o in iso if o[0] == 'harness'][0][1])
     snap_schema = U.snapshot(ctx.schema)
@@ -500,7 +591,9 @@ def execute(plan):
             debug.setLogger(None)
             del debug.scope._list[:]
     if globalstate.digest() != gs0:
-        return _gs_violation(plan, gs0, 'shared-run', trace, ctr)
+        bad = _gs_moved(plan, gs0, 'shared-run', trace, ctr)
+        if bad:
+            return bad
     ctr['mode.%s' % mode] = 1
     ctr['isolation.%s' % plan.get('isolation', 'inproc')] = 1
     ctr['logging.%s' % (logmode or 'off')] = 1
